@@ -76,7 +76,7 @@ def ellipse_s(draw):
     cx, cy = draw(st.integers(-5, 5)), draw(st.integers(-5, 5))
     rx = draw(st.sampled_from([1.0, 2.0, 3.0, 0.5, 5.0]))
     ry = draw(st.sampled_from([1.0, 2.0, 3.0, 0.5, rx]))
-    rot = draw(st.sampled_from([0.0, 0.0, 30.0, 90.0, -45.0, 120.0]))
+    rot = draw(st.sampled_from([0.0, 0.0, 30.0, 90.0, -45.0, 120.0, 180.0, -180.0]))
     sweep = draw(st.integers(0, 1))
     a = gen.ellipse_point([cx, cy], rx, ry, rot, 0.0)
     b = gen.ellipse_point([cx, cy], rx, ry, rot, 180.0)
@@ -129,8 +129,14 @@ def strategy(tier, config):
                 o = [o[0] if abs(o[0]) > 10 else o[1], q[1]]
             return {'kind': kind, 'poly': poly, 'q': q, 'o': o}
         if kind == 'encloses_curved':
-            shape = draw(st.one_of(bezier_outline_s().map(lambda b: {'segs': b}), ellipse_s()))
+            shape = draw(st.one_of(bezier_outline_s().map(lambda b: {'segs': b}), ellipse_s(), ellipse_s()))
             segs = shape['segs']
+            if 'center' in shape and draw(st.booleans()):
+                # half of the ellipse closed by two lines through an integer vertex (a half disc, a rounded corner)
+                v = [float(c) for c in draw(ivert)]
+                a_, b_ = segs[0][1], segs[0][6]
+                if v != a_ and v != b_:
+                    segs = [segs[0], ['L', b_, v], ['L', v, a_]]
             q = [draw(gen.floats_in(-9.0, 9.0)), draw(gen.floats_in(-9.0, 9.0))]
             if 'center' in shape and draw(st.booleans()):
                 # a query point in the ellipse's own neighbourhood (inside its bounding box when unrotated)
